@@ -125,8 +125,10 @@ emit_bool = template(is_func=True,
 
 emit_convert = template(is_func=True,
                         func_args=('target', 'encoded', 'str', 'type',
-                                   'default_marker', 'default'),
-                        func_defaults=(bytes, str, type, None),
+                                   'default_marker', 'default',
+                                   'language'),
+                        func_defaults=(bytes, str, type, None, None,
+                                       'target_language'),
                         source=r"""
     if target is None:
         pass
@@ -147,7 +149,7 @@ emit_convert = template(is_func=True,
                         target,
                         domain=__i18n_domain,
                         context=__i18n_context,
-                        target_language=target_language
+                        target_language=language
                     )
                     target = str(target) \
                         if target is __converted \
@@ -413,8 +415,9 @@ class Interpolator:
                 and isinstance(target.value, str)
             ):
                 target = template(
-                    "translate(msgid, domain=__i18n_domain, context=__i18n_context, target_language=target_language)",  # noqa:  E501 line too long
+                    "translate(msgid, domain=__i18n_domain, context=__i18n_context, target_language=language)",  # noqa:  E501 line too long
                     msgid=target,
+                    language=Builtin("target_language"),
                     mode="eval",
                 )
         else:
@@ -436,7 +439,8 @@ class Interpolator:
                         values.append(node)
 
                 target = template(
-                    "translate(msgid, mapping=mapping, domain=__i18n_domain, context=__i18n_context, target_language=target_language)",   # noqa:  E501 line too long
+                    "translate(msgid, mapping=mapping, domain=__i18n_domain, context=__i18n_context, target_language=language)",   # noqa:  E501 line too long
+                    language=Builtin("target_language"),
                     msgid=ast.Constant(
                         formatting_string),
                     mapping=ast.Dict(
@@ -587,10 +591,13 @@ class ExpressionEngine:
     def _convert_structure(self, target, char_escape):
         """Converts value given by ``target`` to structure output."""
 
+        # (the language in force is a local variable of the render
+        # function; it must not be looked up in the template context)
         return emit_convert(
             target,
             default=self._default,
             default_marker=self._default_marker,
+            language=Builtin("target_language"),
         )
 
     def _convert_text(self, target, char_escape):
